@@ -598,7 +598,9 @@ impl<'a, 'b> Syn<'a, 'b> {
                 let names = self.bindings(n);
                 let nv = self.t.weighted(&[2, 6, 2, 1]);
                 let values = (0..nv).map(|_| self.expr(ed)).collect::<Vec<_>>();
-                let is_const = luau && self.o.consts && !values.is_empty() && values.len() == names.len() && self.t.bool(30);
+                // `const` needs a value for every name, or a last value that can supply several
+                let open_tail = matches!(values.last(), Some(Expr::Call { .. } | Expr::MethodCall { .. } | Expr::Vararg));
+                let is_const = luau && self.o.consts && !values.is_empty() && (values.len() == names.len() || (values.len() < names.len() && open_tail)) && self.t.bool(if values.len() == names.len() { 30 } else { 110 });
                 if is_const {
                     self.stat("const");
                 }
@@ -723,6 +725,12 @@ impl<'a, 'b> Syn<'a, 'b> {
                 }
                 let target = self.target(2);
                 Stmt::CompoundAssign { target, op, value: self.expr(ed) }
+            }
+            _ if self.t.bool(50) => {
+                // a user-defined type function: its body is ordinary code that the rules process
+                self.stat("type_function");
+                let func = self.func_body(d.saturating_sub(1).max(1), false);
+                Stmt::TypeFunction { export: self.t.bool(60), name: ["Compute", "Pick", "Make"][self.t.choose(3)].to_string(), func }
             }
             _ => {
                 self.stat("type_decl");
